@@ -80,9 +80,22 @@ class Run:
         return f
 
     # -- finish ------------------------------------------------------------------------------
-    def finish(self):
+    def new_violations(self):
+        known_active = set()
+        for k in load_known():
+            if k.get("property") == self.prop and k.get("status") == "known":
+                known_active.add("%s|%s|%s" % (k["rule"], k["where"], norm(k["node"])))
+        return [f for f in self.findings if f.key not in known_active]
+
+    def finish(self, partial=False):
+        hook = getattr(self, "post_hook", None)
+        if hook is not None:
+            self.post_hook = None
+            hook()
         reported_rules = {f.rule for f in self.findings}
         for rid, r in self.rules.items():
+            if partial:
+                break           # the rule modules stopped early (see run_rules): floors say nothing about rules that never ran
             # a rule that already reports a violation may have stopped judging early: its floor is not applicable
             if r["judged"] < r["floor"] and rid not in reported_rules:
                 raise AnalysisError("rule %s judged %d instance(s), below its floor of %d (%s): the anchors it "
@@ -161,3 +174,19 @@ class Run:
         os.makedirs(os.path.join(VERIF, "evidence"), exist_ok=True)
         with open(os.path.join(VERIF, "evidence", "%s.json" % self.prop), "w") as fh:
             json.dump(ev, fh, indent=1, default=str)
+
+
+def run_rules(mod, repo, run, tier):
+    """Run a property's rule module.  A violation that a rule has already established stays a violation when a LATER rule of the same property cannot be
+    decided (an anchor it needs has changed shape): the run then ends with the VIOLATION line(s) and exit 1, and the undecided remainder is recorded as a
+    note.  With no violation established, the analysis error propagates (exit 2): nothing is claimed."""
+    from .front import AnalysisError
+    try:
+        mod.run(repo, run, tier)
+    except AnalysisError as e:
+        if not run.new_violations():
+            raise
+        run.notes.append("analysis incomplete after the violation(s) reported: %s" % e)
+        print("NOTE property=%s the remaining rules could not be decided on this tree (%s); the violation(s) already established are reported" % (run.prop, str(e)[:200]))
+        return run.finish(partial=True)
+    return run.finish()
